@@ -12,6 +12,9 @@ run_one() {
   if git -C $wt apply /verif/seeded/$id/patch.diff 2>/dev/null; then
     tier=quick
     grep -q '"thorough_tier"' /verif/seeded/$id/meta.json 2>/dev/null && tier=thorough
+    # a change whose own property's check does not drive the needed history (races, aborted calls)
+    alt=$(/venv/bin/python -c "import json;print(json.load(open('/verif/seeded/$id/meta.json')).get('detect_with',''))")
+    [ -n "$alt" ] && prop=$alt
     VERIF_REPO=$wt VERIF_EVIDENCE_DIR=$2/ev_$id VERIF_REPLAY_DIR=$2/rp_$id timeout 3000 ./check $prop --tier $tier > $2/$id.log 2>&1
     rc=$?
     first=$(grep -m1 -A1 '^VIOLATION' $2/$id.log | tail -1 | cut -c1-260 | sed 's/"/\\"/g')
@@ -27,7 +30,15 @@ ls /verif/seeded | grep -E '^C[0-9]{2}[a-z]$' | xargs -P 3 -I{} bash -c "run_one
 import json,glob,sys
 rows=[json.load(open(f)) for f in sorted(glob.glob(sys.argv[1]+'/C*.json'))]
 json.dump(rows,open(sys.argv[2],'w'),indent=1)
-bad=[r['id'] for r in rows if r['rc']!=1]
-print(len(rows),'seeded changes;', len(rows)-len(bad),'detected by their own property check;','NOT detected:',bad)
+ooa=[]
+for r in rows:
+    m=json.load(open(f"/verif/seeded/{r['id']}/meta.json"))
+    if m.get('out_of_alphabet'):
+        r['out_of_alphabet']=m['out_of_alphabet']; ooa.append(r['id'])
+json.dump(rows,open(sys.argv[2],'w'),indent=1)
+bad=[r['id'] for r in rows if r['rc']!=1 and r['id'] not in ooa]
+surprise=[r['id'] for r in rows if r['rc']!=0 and r['id'] in ooa]
+print(len(rows),'seeded changes;', len(rows)-len(bad)-len(ooa),'detected (own property check, or the one named in detect_with);',
+      len(ooa),'outside the alphabet by decision (expected silent):',ooa,'; NOT detected:',bad,'; out-of-alphabet but not silent:',surprise)
 PY
 rm -rf $tmp
